@@ -461,6 +461,39 @@ def check_conversions(ctx):
     ctx.ob("C11.5", "verif.util.unixtime_to_datenum", ok, "plot date numbers are derived from the UTC datetime", loc=prog.loc(m, f), msg="unixtime_to_datenum is not UTC based")
 
 
+def check_time_formats(ctx):
+    """C11.7: strftime / strptime format strings pair the ISO week number %V with the ISO year %G (and %U / %W with %Y).  Around New
+    Year the ISO year differs from the calendar year: '%Y-%V' files 2018-12-31 under week 1 of 2018."""
+    prog = ctx.prog
+
+    def bad_formats(tree):
+        out = []
+        for n in ast.walk(tree):
+            if isinstance(n, ast.Call) and isinstance(n.func, ast.Attribute) and n.func.attr in ("strftime", "strptime"):
+                for a in n.args:
+                    v = const(a)
+                    if isinstance(v, str):
+                        if "%V" in v and ("%Y" in v or "%y" in v or "%G" not in v and ("%u" in v or "-" in v)):
+                            out.append((n, v, "%V (ISO week) without %G (ISO year)"))
+                        elif "%G" in v and ("%U" in v or "%W" in v or ("%V" not in v and ("%m" in v or "%d" in v or "%j" in v))):
+                            out.append((n, v, "%G (ISO year) with calendar month / day / week directives"))
+        return out
+    ctl = ast.parse("a = d.strftime('%Y-%V-1')\nb = datetime.datetime.strptime(s, '%G-%V-%u')\nc = d.strftime('%Y%m%d')\n")
+    ctx.control("C11.7", [v for _, v, _ in bad_formats(ctl)] == ["%Y-%V-1"], "format lint fires on '%Y-%V-1' and is silent on '%G-%V-%u' and '%Y%m%d'")
+    n = 0
+    for name in sorted(prog.modules):
+        m = prog.modules[name]
+        n_fmt = sum(1 for k in ast.walk(m.tree) if isinstance(k, ast.Call) and isinstance(k.func, ast.Attribute) and k.func.attr in ("strftime", "strptime"))
+        if not n_fmt:
+            continue
+        bad = bad_formats(m.tree)
+        n += 1
+        ctx.ob("C11.7", name, not bad, "date format strings of %s keep ISO week and ISO year together (%d strftime/strptime calls)" % (name, n_fmt),
+               loc=prog.loc(m, bad[0][0]) if bad else None,
+               msg="; ".join("format %r: %s - dates in the days around New Year are filed under a week of the wrong year" % (v, why) for _, v, why in bad))
+    ctx.need(n >= 2, "C11.7: fewer modules with strftime/strptime than confirmed (%d)" % n)
+
+
 def run(ctx):
     ctx.rule("C11.1", "axis categories exhaustive and exclusive; sibling dispatch; each category slices its own dimension")
     ctx.rule("C11.2", "partition by construction: bucket == unique(bucket)[i] on the same bucket function and the dataset's final times")
@@ -468,6 +501,8 @@ def run(ctx):
     ctx.rule("C11.4", "UTC only: utcfromtimestamp/timegm, no local-time API in verif/")
     ctx.rule("C11.5", "date <-> unix time conversions compose/decompose with the same constants")
     ctx.rule("C11.6", "location-like axes and descriptors use id/lat/lon/elev of the dataset's own locations")
+    ctx.rule("C11.7", "date format strings keep ISO week (%V) and ISO year (%G) together")
+    check_time_formats(ctx)
     check_categories(ctx)
     order = check_apply_axis(ctx)
     check_axis_values(ctx, order)
